@@ -182,7 +182,7 @@ func runC14(c *core.Ctx) error {
 	c.Logf("TLC simulation: %d states checked, %d distinct schemas in %d strata (%v)", sim.Generated, nSim, len(strata), sim.Wall)
 
 	// 3. choose the stimuli
-	want := c.Pick(110, 2000)
+	want := c.Pick(100, 2000)
 	var stims []*c14Stim
 	rng.Shuffle(len(exhStims), func(i, j int) { exhStims[i], exhStims[j] = exhStims[j], exhStims[i] })
 	rng.Shuffle(len(catStims), func(i, j int) { catStims[i], catStims[j] = catStims[j], catStims[i] })
@@ -190,9 +190,14 @@ func runC14(c *core.Ctx) error {
 		if len(exhStims) > 30 {
 			exhStims = exhStims[:30]
 		}
-		if len(catStims) > 10 {
-			catStims = catStims[:10]
+		// quick: the whole catalogue for plain structs (union constructors only in the thorough tier)
+		var only []mSchema
+		for _, m := range catStims {
+			if m.Schema[0].Kind == "struct" {
+				only = append(only, m)
+			}
 		}
+		catStims = only
 	}
 	for _, m := range exhStims {
 		stims = append(stims, &c14Stim{M: m, Src: "exhaustive"})
